@@ -161,6 +161,11 @@ fn step_c14(m: &EngModel, w: &mut World, s: &EngSt, a: &Act, out: &mut StepOut) 
         let h = holder(w, va).unwrap_or("alice");
         let ops: Vec<Act> = vec![
             Act::Open { t: "carol".into(), v: vi, buy: true, margin: SIZE_S.0, lev: SIZE_S.1, limit: 0 },
+            // every shape of OpenPosition by a trader who holds a position here: increase, reduce, unwind / reverse
+            Act::Open { t: h.into(), v: vi, buy: true, margin: 2 * D, lev: D, limit: 0 },
+            Act::Open { t: h.into(), v: vi, buy: false, margin: 2 * D, lev: D, limit: 0 },
+            Act::Open { t: h.into(), v: vi, buy: true, margin: SIZE_L.0, lev: SIZE_L.1, limit: 0 },
+            Act::Open { t: h.into(), v: vi, buy: false, margin: 40 * D, lev: 10 * D, limit: 0 },
             Act::Close { t: h.into(), v: vi, limit: 0 },
             Act::Dep { t: h.into(), v: vi, amt: 2 * D },
             Act::Wd { t: h.into(), v: vi, amt: 1 },
